@@ -38,6 +38,31 @@ func TestVerifC21Node(t *testing.T) {
 		if a, b := hashslot.HashSlotForKey(key, n), routing.HashSlotForKey(key, n); a != got || b != got {
 			rt.Fatalf("components disagree: node=%d hashslot=%d routing=%d", got, a, b)
 		}
+		// The count a node answers with before any route table exists is the
+		// configured fallback; once a snapshot (then a control snapshot) installs
+		// the cluster's real count, every later answer must follow it — the hash
+		// slot of a key may not depend on which calls were made earlier.
+		later := rapid.IntRange(0, 2).Draw(rt, "laterInstall")
+		if later > 0 {
+			n2 := uint16(rapid.IntRange(1, 65535).Draw(rt, "installedCount"))
+			// resolution order: route table, snapshot, control snapshot, configuration
+			switch {
+			case src == 1 || later == 1:
+				node.snapshot.HashSlotCount = n2 // a (new) snapshot outranks what answered before
+			default:
+				node.controlSnapshot.HashSlots.Count = n2 // src 0 or 2: outranks the configuration / replaces the old control snapshot
+			}
+			{
+				for _, key2 := range []string{key, string(kit.Bytes(64).Draw(rt, "key2"))} {
+					want2 := uint16(crc32.ChecksumIEEE([]byte(key2)) % uint32(n2))
+					if got2 := node.HashSlotForKey(key2); got2 != want2 {
+						rt.Fatalf("Node.HashSlotForKey(%q) after the count %d (source %d) was superseded by an installed count %d: %d want %d", key2, n, src, n2, got2, want2)
+					}
+				}
+				k.Label("count superseded by a later installed table")
+				k.Key(n2, later)
+			}
+		}
 		k.Key(key, n, src)
 		k.SetNonTrivial(len(key) > 0 && n > 1)
 		k.Label(fmt.Sprintf("count source %d", src))
